@@ -40,6 +40,8 @@ const (
 	// second output (only in scenarios with Out2): its own upstream, always healthy, and its own queue root
 	aUpstreamAddr2 = "localhost:24225"
 	aBufRoot2      = simfs.Prefix + "/buf2"
+	// Datadog output (profile c11dd): never transmitted (its client is net/http, outside every seam); its chunks are read from its queue root
+	aBufRootDD = simfs.Prefix + "/bufdd"
 )
 
 // ARec is one record a client sends
@@ -89,6 +91,7 @@ type AScenario struct {
 	Keys          []string   `json:"keys"`                              // orchestration key fields
 	MetricKeys    []string   `json:"metric_keys,omitempty"`             // metricKeys of the configuration (default: host)
 	Out2          bool       `json:"second_output,omitempty"`           // a second output/buffer pair with different serialization settings (reference count 2 per record)
+	Datadog       bool       `json:"datadog_output,omitempty"`          // a Datadog output/buffer pair whose consumer never takes a chunk: every chunk it makes ends up in its queue root
 	Poison        bool       `json:"poison_released_buffers,omitempty"` // released backing buffers are overwritten with 0xEE (in the other runs they keep their bytes until reused, which is what lets a stale reference read ANOTHER record)
 	Tag           string     `json:"tag"`                               // tag template
 	KeyTuples     [][]string `json:"key_tuples"`                        // values of (app, level-severity, pid) per tuple index; level is a severity number as string
@@ -96,6 +99,7 @@ type AScenario struct {
 	MaxDurMs      int        `json:"max_duration_ms"`
 	FlushMs       int        `json:"flush_ms"`
 	IBufLogs      int        `json:"intermediate_buffer_logs"`
+	IBufBytes     int        `json:"intermediate_buffer_bytes,omitempty"` // 0 = the shipped 4 MiB
 	MemCap        int        `json:"mem_cap"`
 	ChunkMaxBytes int        `json:"chunk_max_bytes"`
 	ChunkMaxRecs  int        `json:"chunk_max_records"`
@@ -248,7 +252,26 @@ transformations:
         tls: false
         secret: ""
         maxDuration: %s
-`, fields, aInputAddr, strings.Join(s.Keys, ", "), s.Tag, metricKey, extra, aBufRoot, s.MaxBufBytes, s.Mode, aUpstreamAddr, maxDur) + s.secondOutputYAML()
+`, fields, aInputAddr, strings.Join(s.Keys, ", "), s.Tag, metricKey, extra, aBufRoot, s.MaxBufBytes, s.Mode, aUpstreamAddr, maxDur) + s.secondOutputYAML() + s.datadogOutputYAML()
+}
+
+func (s *AScenario) datadogOutputYAML() string {
+	if !s.Datadog {
+		return ""
+	}
+	return fmt.Sprintf(`  - name: dd
+    buffer:
+      type: hybridBuffer
+      rootPath: %s
+      maxBufSize: %dB
+    output:
+      type: datadog
+      serialization:
+        hiddenFields: [pid, extra1]
+      upstream:
+        address: http://localhost:1/api/v2/logs
+        httpTimeout: 30s
+`, aBufRootDD, s.MaxBufBytes)
 }
 
 func (s *AScenario) secondOutputYAML() string {
@@ -323,6 +346,44 @@ func (s *AScenario) recordLine(client, seq int, rec ARec) string {
 func mkHostSource(mk int) (string, string) {
 	p := [][2]string{{"h", "1s"}, {"h1", "s"}, {"h2", "s"}, {"h", "2s"}}[(mk-1)%4]
 	return p[0], p[1]
+}
+
+// aimAtDatadogSizeLimit adjusts the last record of burst bi of client 0 so that the burst, as one Datadog JSON array
+// ('[' + records joined by ',' + ']'), is exactly the size limit plus delta bytes. The sizes are those the real serializer
+// gives each record on a fresh pipeline.
+func (s *AScenario) aimAtDatadogSizeLimit(bi, delta int) {
+	ref, err := newAReference(s.configYAML(""))
+	if err != nil {
+		return
+	}
+	ref.rawOnly = true
+	for i, p := range ref.conf.OutputBuffersPairs {
+		if p.Name == "dd" {
+			ref.outIdx = i
+		}
+	}
+	seq := 0
+	for b := 0; b < bi; b++ {
+		seq += len(s.Clients[0].Bursts[b].Recs)
+	}
+	recs := s.Clients[0].Bursts[bi].Recs
+	size := func(i int) int {
+		ref.tag = s.expandTag(s.tupleOfKey(recs[i].Key))
+		return len(ref.eval(strings.TrimSuffix(s.recordLine(0, seq+1+i, recs[i]), "\n")).raw)
+	}
+	total := 2 + len(recs) - 1
+	for i := range recs {
+		total += size(i)
+	}
+	last := len(recs) - 1
+	for try := 0; try < 3 && total != ddMaxBytes+delta; try++ {
+		before := size(last)
+		recs[last].Fill = max(0, recs[last].Fill+ddMaxBytes+delta-total)
+		total += size(last) - before
+	}
+	if os.Getenv("VERIF_DEBUG_DD") != "" {
+		fmt.Fprintf(os.Stderr, "DD aim: %d records, array of %d bytes (limit %+d), last fill %d\n", len(recs), total, total-ddMaxBytes, recs[last].Fill)
+	}
 }
 
 func genFaultyUp(r *simrt.Rand, s *AScenario) AUp {
@@ -588,6 +649,55 @@ func (w *worldA) tweak(r *simrt.Rand, s *AScenario, end int) {
 		if s.Profile == "c07big" {
 			s.MsgMax = 1024 * 1024
 		}
+	case "c11dd":
+		// Datadog format next to a Forward output; a third of the runs aim a burst at the record limit, a third at the size limit
+		s.Datadog = true
+		s.ChunkMaxBytes, s.ChunkMaxRecs = 7*1024*1024, 0
+		s.MsgMax = 1024 * 1024
+		s.Upstream, s.HealAtMs = nil, 0
+		s.Events = nil
+		if r.Bool(30) {
+			restarts(1)
+		}
+		s.IBufLogs = 2000
+		s.IBufBytes = 64 << 20 // a whole aimed burst reaches the pipeline in one batch, between two flush ticks
+		switch mode := r.Intn(3); mode {
+		case 1, 2:
+			s.KeyTuples = s.KeyTuples[:1]
+			cl := AClient{}
+			small := func(n int) ABurst {
+				bu := ABurst{PauseMs: 4000}
+				for i := 0; i < n; i++ {
+					bu.Recs = append(bu.Recs, ARec{TS: r.Intn(4), Fill: r.Intn(30)})
+				}
+				return bu
+			}
+			if r.Bool(50) {
+				cl.Bursts = append(cl.Bursts, small(1+r.Intn(3)))
+			}
+			aim := ABurst{PauseMs: 4000} // long after the burst before it: the aimed burst starts a chunk of its own
+			if mode == 1 {
+				for i, n := 0, ddMaxRecords+r.Range(-1, 3); i < n; i++ {
+					aim.Recs = append(aim.Recs, ARec{TS: i % 4, Fill: r.Intn(4)})
+				}
+			} else {
+				for i, n := 0, r.Range(9, 13); i < n; i++ {
+					aim.Recs = append(aim.Recs, ARec{TS: i % 4, Fill: ddMaxBytes/n - 5000 + r.Intn(3000)})
+				}
+			}
+			cl.Bursts = append(cl.Bursts, aim)
+			cl.Bursts = append(cl.Bursts, small(1+r.Intn(3)))
+			s.Clients = []AClient{cl}
+			if mode == 2 {
+				s.aimAtDatadogSizeLimit(len(cl.Bursts)-2, r.Range(-2, 3))
+			}
+		default:
+			for ci := range s.Clients {
+				for bi := range s.Clients[ci].Bursts {
+					s.Clients[ci].Bursts[bi].CutAt = 0
+				}
+			}
+		}
 	case "c11big":
 		// the shipped limits: 7 MiB chunks, 1 MiB messages; a few records of hundreds of KiB so that single chunks pass the
 		// 1 MiB initial capacity of the chunk and message buffers (state that only a large chunk creates)
@@ -820,6 +930,7 @@ type aStop struct {
 	Metrics  map[string]float64
 	Files    map[string][]byte
 	Files2   map[string][]byte // queue files of the second output
+	FilesDD  map[string][]byte // queue files of the Datadog output
 	BugLines int
 }
 
@@ -913,6 +1024,9 @@ func (r *aRun) setKnobs() {
 	defs.InputFlushInterval = ms(s.FlushMs)
 	defs.IntermediateBufferMaxNumLogs = s.IBufLogs
 	defs.IntermediateBufferMaxTotalBytes = 4 * 1024 * 1024
+	if s.IBufBytes > 0 {
+		defs.IntermediateBufferMaxTotalBytes = s.IBufBytes
+	}
 	defs.IntermediateBufferedChannelSize = 1
 	defs.IntermediateChannelTimeout = ms(s.ICTMs)
 	defs.IntermediateFlushInterval = time.Second
@@ -968,6 +1082,9 @@ func (r *aRun) startAgent() bool {
 				return
 			}
 			a.loader = ld
+			if r.s.Datadog {
+				ld.PipelineArgs.NewConsumerOverride = r.consumerOverride()
+			}
 			orch = ld.StartOrchestrator(logger.Root())
 			addrs, shut := ld.LaunchInputs(orch)
 			a.addr, a.shutIn = addrs[0], shut
@@ -1052,6 +1169,9 @@ func (r *aRun) stopAgent() {
 	if r.s.Out2 {
 		st.Files2 = r.fs.Files(aBufRoot2)
 	}
+	if r.s.Datadog {
+		st.FilesDD = r.fs.Files(aBufRootDD)
+	}
 	r.stops = append(r.stops, st)
 	r.agent = nil
 	r.stopping = false
@@ -1073,6 +1193,9 @@ func (r *aRun) drive() {
 	}
 	r.srv = newAServer(r)
 	r.srv.start()
+	if s.Datadog {
+		r.fs.MkdirAllRaw(aBufRootDD)
+	}
 	if s.Out2 {
 		r.fs.MkdirAllRaw(aBufRoot2)
 		r.srv2 = newAServer(r)
